@@ -70,6 +70,11 @@ var builtinCorpus = []Item{
 	{Name: "big-regex-literal", Src: "find all @/" + strings.Repeat("ab", 2300) + "|k/", Text: "k ab k", Tags: []string{"big"}},
 	{Name: "big-in-list", Src: "find all at least 1 in " + bigInList(600), Text: "a1 zz 99", Tags: []string{"big"}},
 	{Name: "big-escapes-at-all-alignments", Src: escapesAtAlignments(), Text: "C:xampp k", Tags: []string{"big"}},
+	{Name: "empty-text", Src: "find all 'a'", Text: ""},
+	{Name: "empty-text-replace", Src: "replace all letter with 'x'", Text: ""},
+	{Name: "err-parse-after-regex-groups-lookahead", Src: "find all @/(a)(b)(?=c)/", Text: "abc"},
+	{Name: "err-parse-after-regex-groups-unbalanced", Src: "find all @/(a)(b)((c)/", Text: "abc"},
+	{Name: "err-parse-after-regex-group-then-bad-token", Src: "find all @/(x)/ at least", Text: "x"},
 	{Name: "err-undefined", Src: "find all nope", Text: "x"},
 	{Name: "err-parse", Src: "find all at least", Text: "x"},
 	{Name: "err-lex", Src: "find all 'unterminated", Text: "x"},
